@@ -396,6 +396,10 @@ class NoMeaning(Exception):
     non-positive number, ...)."""
 
 
+class OracleGap(NoMeaning):
+    """The harness has no semantics for this (numeric) constant of the theory."""
+
+
 def is_exact(x):
     return isinstance(x, (int, Fraction))
 
@@ -558,8 +562,69 @@ def _sem0(t, env):
         if ek == "q" and kind == "q":
             return ("q", hol_rpow(base, e))
         raise NoMeaning("power with exponent kind %s at %s" % (ek, kind))
-    if nm == "abs" and k == 1 and kind in ("i", "q"):
+    if nm == "abs" and k == 1 and kind in ("n", "i", "q"):
         return (kind, abs(num(0, kind)))
+    if nm == "id_fun" and k == 1 and kind is not None:
+        return (kind, num(0, kind))
+    if nm in ("max", "min") and k == 2 and kind is not None:
+        a, b = num(0, kind), num(1, kind)
+        try:
+            a_le_b = compare("less_eq", a, b)
+        except Undecided:
+            a_le_b = True                      # indistinguishable: either one
+        return (kind, (b if a_le_b else a) if nm == "max" else (a if a_le_b else b))
+    if nm == "Pre" and k == 1 and T == N:
+        return ("n", max(num(0, "n") - 1, 0))
+    if nm == "fact" and k == 1 and T == N:
+        a = num(0, "n")
+        if a > 2000:
+            raise NoMeaning("factorial too large for the oracle")
+        import math
+        return ("n", math.factorial(a))
+    if nm in ("nat_divide", "nat_modulus") and k == 2 and T == N:
+        a, b = num(0, "n"), num(1, "n")
+        if b == 0:
+            raise NoMeaning("%s by 0 is not specified" % nm)
+        return ("n", a // b if nm == "nat_divide" else a % b)
+    if nm in ("floor", "frac", "real_sgn", "acs", "asn") and k == 1 and T == R and head.T == ht.TFun(R, R):
+        a = num(0, "q")
+        if nm == "real_sgn":
+            if is_exact(a):
+                return ("q", Fraction((a > 0) - (a < 0)))
+            if abs(a) < m.mpf(10) ** (-150):
+                raise Undecided()
+            return ("q", Fraction(1 if a > 0 else -1))
+        if nm in ("floor", "frac"):
+            if is_exact(a):
+                a = Fraction(a)
+                fl = a.numerator // a.denominator
+                return ("q", Fraction(fl) if nm == "floor" else a - fl)
+            fl = m.floor(a)
+            if abs(a - m.nint(a)) < m.mpf(10) ** (-150):
+                raise Undecided()
+            return ("q", Fraction(int(fl)) if nm == "floor" else a - fl)
+        x = to_mpf(a)
+        if x < -1 or x > 1:
+            raise NoMeaning("%s outside [-1, 1]" % nm)
+        if is_exact(a) and a == 0 and nm == "asn":
+            return ("q", Fraction(0))
+        if is_exact(a) and a == 1 and nm == "acs":
+            return ("q", Fraction(0))
+        return ("q", m.acos(x) if nm == "acs" else m.asin(x))
+    if nm == "root" and k == 2 and T == R:
+        n_ = num(0, "n")
+        a = num(1, "q")
+        if is_exact(a) and a == 0:
+            return ("q", Fraction(0))
+        if n_ == 0:
+            raise NoMeaning("root 0")
+        x = to_mpf(a)
+        if abs(x) < m.mpf(10) ** (-150):
+            raise Undecided()
+        if is_exact(a) and n_ == 1:
+            return ("q", Fraction(a))
+        sg = 1 if x > 0 else -1
+        return ("q", sg * m.exp(m.log(abs(x)) / n_))
     if T == R and k == 0 and nm == "pi":
         return ("q", +m.pi)
     if T == R and k == 1 and nm in ("sqrt", "exp", "log", "sin", "cos", "tan", "cot", "sec", "csc", "atn") and head.T == ht.TFun(R, R):
@@ -618,6 +683,8 @@ def _sem0(t, env):
             if env is None and symbolically_equal(args[0], args[1]):
                 return ("b", nm in ("equals", "less_eq", "greater_eq"))
             raise
+    if kind is not None and k >= 1:
+        raise OracleGap("the oracle has no semantics for %s/%d" % (nm, k))
     raise NoMeaning("no standard meaning for %s/%d" % (nm, k))
 
 
@@ -1799,6 +1866,239 @@ def forged_stream(ctx):
     return n_ok
 
 
+
+# ---------------------------------------------------------------------------------------------
+# 6e. every function symbol the THEORY offers, at constants: evaluators and const_inequality
+# ---------------------------------------------------------------------------------------------
+def theory_function_symbols():
+    """(name, [arg types], result type) for every constant of the loaded theory whose declared type,
+    with its type variables instantiated at nat / int / real, is a function of one or two numeric
+    arguments with a numeric result — derived from the theory's signature, NOT from what the
+    evaluators support."""
+    ht = K.htype
+    tags = {ht.NatType: "nat", ht.IntType: "int", ht.RealType: "real"}
+    sig = K.theory.thy.get_data("term_sig")
+    out = []
+    for name in sorted(sig):
+        T0 = sig[name]
+        try:
+            tvars = T0.get_tvars() if hasattr(T0, "get_tvars") else []
+            stvars = T0.get_stvars() if hasattr(T0, "get_stvars") else []
+        except Exception:  # noqa
+            continue
+        vs = list(tvars) + list(stvars)
+        insts = [None]
+        if vs:
+            if len(vs) > 2:
+                continue
+            cands = [ht.NatType, ht.IntType, ht.RealType]
+            insts = [(a,) for a in cands] if len(vs) == 1 else [(a, b) for a in cands for b in (ht.NatType, ht.RealType)]
+        for inst in insts:
+            T = T0
+            if inst is not None:
+                try:
+                    tyinst = ht.TyInst(**{v.name: x for v, x in zip(vs, inst)})
+                    T = (T0.convert_stvar() if tvars else T0).subst(tyinst)
+                except Exception:  # noqa
+                    continue
+            try:
+                args, res = T.strip_type()
+            except Exception:  # noqa
+                continue
+            if 1 <= len(args) <= 2 and all(a in tags for a in args) and res in tags:
+                out.append((name, [tags[a] for a in args], tags[res]))
+    return out
+
+
+TF_CONSTS = {
+    "real": [-10, -2, -1, Fraction(-1, 2), 0, Fraction(1, 2), 1, 2, 3, 10],
+    "int": [-3, -1, 0, 2],
+    "nat": [0, 1, 2, 5],
+}
+
+
+def tf_app(name, argTs, resT, args):
+    return ["forged", name, list(argTs), resT] + list(args)       # same builder; here at a declared instance
+
+
+def tf_terms(ctx, syms):
+    """Applications f c / f a b of every symbol at a few constants (trees), incl. irrational arguments for reals."""
+    quick = ctx.tier != "thorough"
+    out = []
+    R = "real"
+    irr = [["fn", "sqrt", lit(R, 3)], ["divide", ["pi"], lit(R, 4)], ["uminus", R, ["fn", "sqrt", lit(R, 2)]]]
+    for name, argTs, resT in syms:
+        if len(argTs) == 1:
+            cs = TF_CONSTS[argTs[0]]
+            if quick and argTs[0] == "real":
+                cs = [-2, -1, 0, Fraction(1, 2), 2, 10]
+            for c in cs:
+                out.append((name, argTs, resT, tf_app(name, argTs, resT, [lit(argTs[0], c)]), True))
+            if argTs[0] == R:
+                for a in (irr[:1] if quick else irr):
+                    out.append((name, argTs, resT, tf_app(name, argTs, resT, [a]), False))
+        else:
+            pairs = {"real": [(2, 3), (-2, 3), (Fraction(1, 2), -1), (0, 0), (4, Fraction(1, 2)), (-8, Fraction(1, 3))],
+                     "int": [(2, -3), (-1, 0)], "nat": [(5, 2), (2, 5), (3, 0), (0, 0)]}
+            for a, b in pairs[argTs[0]]:
+                try:
+                    b2 = b
+                    if argTs[1] == "nat":
+                        b2 = abs(int(b)) if Fraction(b).denominator == 1 else 2
+                    elif argTs[1] == "int":
+                        b2 = int(b) if Fraction(b).denominator == 1 else -2
+                    out.append((name, argTs, resT, tf_app(name, argTs, resT, [lit(argTs[0], a), lit(argTs[1], b2)]), True))
+                except Exception:  # noqa
+                    continue
+    return out
+
+
+def iv_endpoint(x, which):
+    m = mp()
+    if hasattr(x, "_mpi_"):
+        return m.mpf(x._mpi_[which])
+    if isinstance(x, (int, Fraction)):
+        return to_mpf(x)
+    return m.mpf(x)
+
+
+def oracle_value(t):
+    """Value of a variable-free numeric term at two precisions (MP_DPS and 2*MP_DPS digits) that must agree;
+    returns (kind, value) with an exact value when the oracle has one.  Raises NoMeaning / OracleGap."""
+    k1, v1 = sem(t)
+    if is_exact(v1):
+        return k1, v1
+    m = mp()
+    old = m.dps
+    m.dps = 2 * MP_DPS
+    try:
+        k2, v2 = sem(t)
+        d = abs(to_mpf(v1) - to_mpf(v2))
+        if d > max(1, abs(to_mpf(v2))) * m.mpf(10) ** (-(MP_DPS - 30)):
+            raise Undecided()
+        return k2, v2
+    finally:
+        m.dps = old
+
+
+def theory_function_stream(ctx):
+    """(1) dispatch fall-through: every evaluator is fed every function symbol of the theory at constants and
+    whatever it RETURNS is compared with the oracle (a refusal is fine); (2) const_inequality goals
+    `f c ⋈ r` with r just below / just above the true value and at |c|, c, 0, ±pi/2, six relations."""
+    syms = theory_function_symbols()
+    ctx.coverage["theory_function_symbols"] = sorted({s[0] for s in syms})
+    terms = tf_terms(ctx, syms)
+    m = mp()
+    R = "real"
+    evaluators = {"nat": [("nat_eval", K.nat.nat_eval)], "int": [("int_eval", K.integer.int_eval)],
+                  "real": [("real_eval", K.real.real_eval), ("real_approx_eval", K.real.real_approx_eval)] +
+                          ([("real_interval_eval", K.real.real_interval_eval)] if hasattr(K.real, "real_interval_eval") else [])}
+    goals = []
+    gaps = set()
+    for name, argTs, resT, tree, rational_arg in terms:
+        try:
+            t = build(tree)
+            t.checked_get_type()
+        except Exception:  # noqa
+            ctx.count("theory-fn:unbuildable")
+            continue
+        try:
+            kind, v = oracle_value(t)
+            verdict = "value"
+        except OracleGap:
+            verdict, v = "gap", None
+        except NoMeaning as e:
+            verdict, v = "nomeaning", str(e)
+        except Undecided:
+            verdict, v = "unstable", None
+        except Exception as e:  # noqa  (overflow in the oracle ...)
+            verdict, v = "unstable", None
+        # ---- (1) evaluators on the term itself and under of_nat / of_int
+        variants = [(resT, tree, t)]
+        if resT == "nat":
+            w = ["ofnat", R, tree]
+            variants.append((R, w, build(w)))
+        if resT == "int":
+            w = ["ofint", tree]
+            variants.append((R, w, build(w)))
+        for vT, vtree, vt in variants:
+            for ename, fn in evaluators[vT]:
+                try:
+                    with time_limit(20):
+                        r = fn(vt)
+                except Timeout:
+                    ctx.count("theory-fn:%s:timeout" % ename)
+                    continue
+                except Exception:  # noqa
+                    ctx.count("theory-fn:%s:rejects" % ename)
+                    continue
+                ctx.case(("theory-fn", ename, vtree), nontrivial=True)
+                ctx.count("theory-fn:%s:returns" % ename)
+                rp = {"evaluator": ename, "expr": vtree, "theory_function": name, "result": safe_str(r)}
+                key = "evaluator-wrong:%s:%s" % (ename, short_key(vtree))
+                if verdict == "gap":
+                    gaps.add(name)
+                    continue
+                if verdict == "unstable":
+                    ctx.count("theory-fn:oracle-unstable")
+                    continue
+                if verdict == "nomeaning":
+                    ctx.violation("evaluator-no-meaning:%s:%s" % (ename, short_key(vtree)),
+                                  "%s(%s) returned %s but the term has no standard meaning (%s)" % (ename, safe_str(vt), safe_str(r), v), rp)
+                    continue
+                tv = to_mpf(v)
+                tol_abs = max(1, abs(tv))
+                if ename == "real_interval_eval":
+                    try:
+                        lo, hi = iv_endpoint(r[0], 0), iv_endpoint(r[1], 1)
+                        ok = lo <= tv <= hi
+                    except Exception:  # noqa
+                        ok = False
+                    if not ok:
+                        ctx.violation(key, "real_interval_eval(%s) = %s does not enclose the value %s" % (safe_str(vt), safe_str(r), m.nstr(tv, 30)), rp)
+                elif ename == "real_approx_eval":
+                    try:
+                        ok = isinstance(r, (int, float, Fraction)) and not isinstance(r, bool) and abs(to_mpf(r) - tv) <= tol_abs * m.mpf(10) ** (-6)
+                    except Exception:  # noqa
+                        ok = False
+                    if not ok:
+                        # real_approx_eval feeds no trusted step any more (fixes/C05-2): an inaccurate float is recorded, it is
+                        # not a failure of the property; const_inequality goals about the same terms are judged in part (2)
+                        ctx.count("theory-fn:real_approx_eval:inaccurate(not a trusted step)")
+                        ctx.coverage.setdefault("approx_eval_inaccurate", [])
+                        if len(ctx.coverage["approx_eval_inaccurate"]) < 5:
+                            ctx.coverage["approx_eval_inaccurate"].append("%s = %s, value %s" % (safe_str(vt), safe_str(r), m.nstr(tv, 20)))
+                else:
+                    ok = isinstance(r, (int, Fraction)) and not isinstance(r, bool) and \
+                        (Fraction(r) == Fraction(v) if is_exact(v) else False)
+                    if not ok:
+                        ctx.violation(key, "%s(%s) = %s but the value is %s" % (ename, safe_str(vt), safe_str(r), v if is_exact(v) else m.nstr(tv, 30)), rp)
+        # ---- (2) const_inequality goals around the true value
+        if resT != R:
+            continue
+        rhs = []
+        if verdict == "value":
+            tv = to_mpf(v)
+            q = Fraction(int(m.floor(tv * 10 ** 6)), 10 ** 6)
+            rhs += [(lit(R, q - Fraction(2, 10 ** 6)), CMPS + ["eq", "ne"]), (lit(R, q + Fraction(3, 10 ** 6)), CMPS + ["eq", "ne"])]
+        c0 = tree[4]
+        side = [(["fn", "abs", c0], ["lt", "gt", "ge"]), (c0, ["lt", "gt", "eq"]), (lit(R, 0), ["lt", "gt", "ge", "le"]),
+                (["divide", ["pi"], lit(R, 2)], ["lt", "gt"]), (["uminus", R, ["divide", ["pi"], lit(R, 2)]], ["lt", "gt"]),
+                (["fn", "sqrt", lit(R, 2)], ["lt", "gt"])]
+        rhs += side if len(argTs) == 1 else side[2:3]
+        for r_tree, rels in rhs:
+            for rel in rels:
+                g = ["neg", ["eq", R, tree, r_tree]] if rel == "ne" else [rel, R, tree, r_tree]
+                goals.append((g, "theory-fn:%s" % name))
+                if rel in ("lt", "gt") and ctx.tier == "thorough":
+                    goals.append(([rel, R, r_tree, tree], "theory-fn:%s" % name))
+    for name in sorted(gaps):
+        ctx.broken("oracle-missing-semantics:%s" % name,
+                   "an evaluator returns a value for the theory function %s but the harness oracle has no semantics for it: extend _sem0" % name)
+    macro_stream(ctx, goals, "theory-fn", macros=["const_inequality"])
+    return len(terms), len(goals)
+
+
 # ---------------------------------------------------------------------------------------------
 # 6c. the six accept conditions of eval_inequality_expr against the model (bounds injected)
 # ---------------------------------------------------------------------------------------------
@@ -1913,6 +2213,8 @@ def run(ctx):
     ctx.sample({"near_equal": ne_cases[0]})
     interval_decision_stream(ctx)
     forged_stream(ctx)
+    n_tf = theory_function_stream(ctx)
+    ctx.log("theory-function stream done: %d applications, %d const_inequality goals" % n_tf)
     ctx.log("near-equal stream (%d cases) and interval-decision stream done" % len(ne_cases))
     # random ground goals
     rng = ctx.rng("goals")
@@ -1952,6 +2254,32 @@ def replay(ctx, rp):
     """Re-run one recorded failing input on the implementation; returns True if it still fails."""
     K.load()
     r = rp["replay"]
+    if "theory_function" in r:
+        # one (evaluator, application) case of the theory-function stream
+        ename, tree = r["evaluator"], r["expr"]
+        fns = {"nat_eval": K.nat.nat_eval, "int_eval": K.integer.int_eval, "real_eval": K.real.real_eval,
+               "real_approx_eval": K.real.real_approx_eval, "real_interval_eval": getattr(K.real, "real_interval_eval", None)}
+        vt = build(tree)
+        try:
+            got = fns[ename](vt)
+        except Exception as e:  # noqa
+            print("the evaluator now rejects the term (%s)" % type(e).__name__)
+            return False
+        try:
+            kind, v = oracle_value(vt)
+        except NoMeaning as e:
+            print("still fails: %s returns %s for a term without standard meaning (%s)" % (ename, safe_str(got), e))
+            return True
+        tv = to_mpf(v)
+        if ename == "real_interval_eval":
+            bad = not (iv_endpoint(got[0], 0) <= tv <= iv_endpoint(got[1], 1))
+        elif ename == "real_approx_eval":
+            bad = False
+        else:
+            bad = not (isinstance(got, (int, Fraction)) and is_exact(v) and Fraction(got) == Fraction(v))
+        if bad:
+            print("still fails: %s(%s) = %s, value %s" % (ename, safe_str(vt), safe_str(got), mp().nstr(tv, 30)))
+        return bad
     if "near_equal" in r:
         near_equal_stream(ctx, [r["near_equal"]], macros=[r["macro"]])
     elif r.get("forged"):
